@@ -101,7 +101,7 @@ def guard_blocks(fn, cond_pred, branch=0):
     preds = fn.preds()
     for b, blk in fn.blocks.items():
         t = blk.get("term")
-        if not t or "cond" not in t or t["k"] not in ("if", "cond", "while", "for", "do"):
+        if not t or "cond" not in t or t["k"] not in ("if", "cond", "while", "for", "do", "||", "&&"):
             continue
         if not cond_pred(t["cond"]):
             continue
@@ -120,7 +120,7 @@ def branch_edges(fn, cond_pred, branch):
     res = set()
     for b, blk in fn.blocks.items():
         t = blk.get("term")
-        if not t or "cond" not in t or t["k"] not in ("if", "cond", "while", "for", "do"):
+        if not t or "cond" not in t or t["k"] not in ("if", "cond", "while", "for", "do", "||", "&&"):
             continue
         if not cond_pred(t["cond"]):
             continue
